@@ -38,6 +38,14 @@ NOTES = {
     'C07-A6-kwarg-comment-does-not-force-break': 'MISSED by C07 as built then (no field / keyword value that the printers show with an automatic comment); caught after adding functions and classes as field values',
     'C09-B6-notice-template-joined-with-user-comment': 'caught by C10 as built then only after format characters were added to its comment texts; MISSED by C09 and C10 as built then (comment texts without { } %; C09 never used max_seq_len); caught after adding such texts to both and an inertness-under-max_seq_len pass to C09',
     'C06-A6-force-break-estimate-off-by-one-element': 'MISSED by C06 as built then (the no-forced-break obligation covered sequences up to 20 elements); caught after extending it to the documented limit (shortest one-line form <= 150 columns, i.e. up to 50 elements) with sequences of exactly 49/50 elements',
+    'C01-B7-numeric-bulk-path-prints-bare-nan-inf': 'MISSED by C01 as built then (big containers had mixed element types and no inf/nan members); caught after adding homogeneous sequences of 45 .. 10000 elements with special members (inf, nan, -0.0, huge ints, empty strings, ...)',
+    'C20-A7-predicate-registry-move-to-front-unlocked': 'MISSED by C20 as built then (at most one predicate printer existed, and only in the scenario that registers it); caught after adding three predicate printers and scenario S15 (both threads print values dispatched through different predicates), _repr_pretty added to the shared-state functions',
+    'C19-B7-layout-base-fast-path-skips-deferred-mro-walk': 'first caught by C15 (random hierarchies with multiple inheritance); C19 itself MISSED it as built then (no class with two bases whose first base has a pending by-name printer); caught by C19 after adding MPoint(MRec, tuple) / MMap(MRec, dict) / MList(MRec, list)',
+    'C17-A7-identifier-doc-cache-keyed-by-name': 'MISSED by C17 as built then (all callables of one module had different __name__s); caught after adding callables with the same __name__ and different qualified names in one module',
+    'C08-B7-namedtuple-detected-by-fields-attribute-only': 'MISSED by C08 as built then (no subclass carrying attributes that other protocols look for); caught after adding "ducky" subclasses (_fields, n_fields, _name_/_value_, zone, __attrs_attrs__)',
+    'C18-A7-pformat-renderer-rstrips-whole-line': 'MISSED by C18 as built then (four fixed values without comments); caught after adding values with comments whose lines end in or consist of whitespace',
+    'C11-B7-tuple-subclass-sole-argument-hugged': 'MISSED by C11 as built then (no call-style value with a container as sole argument other than the collections wrappers); caught after adding exceptions as container kinds (which also made the oracle distinguish set arguments: hugged by set-subclass printers only)',
+    'C10-B7-counter-most-common-n-hides-truncation': 'MISSED by C10 as built then (Counter and deque were not among its containers); caught after adding both as call-style holders with their own reference',
 }
 for name, note in NOTES.items():
     p = os.path.join(HOME, 'seeded', name, 'meta.json')
@@ -56,6 +64,9 @@ for p in glob.glob(os.path.join(HOME, 'seeded', '*', 'meta.json')):
     if rnd in ('2', '3'):
         m['origin'] = ('round %s: independent sub-agent in its own scratch worktree, given the property text plus a PROSE description of the kind of generated workload '
                        'it had to slip past (no file from /verif) - a deliberately stronger adversary than "property text only"' % rnd)
+    elif rnd == '7':
+        m['origin'] = ('round 7: as round 6 - independent sub-agent in its own scratch worktree, four property texts (pick two), rarity shown by its own random '
+                       'differential test, one-line summaries of the ideas already delivered ("do not repeat"), nothing about the checks')
     elif rnd == '6':
         m['origin'] = ('round 6: independent sub-agent in its own scratch worktree, given four property texts (pick two), the rarity requirement of round 5, and one-line '
                        'summaries of the ideas earlier seeders had already delivered for those properties ("do not repeat") - nothing about the checks')
